@@ -229,7 +229,7 @@ case("c09-has-rtl-without-an", "break", ["C09"], [(BD, "matches!(bidi_class(c), 
 case("c09-es-ends-rtl", "break", ["C09"], [(BD, "    nsm || matches!(\n        prev,\n        BidiClass::R | BidiClass::AL | BidiClass::EN | BidiClass::AN\n    )", "    nsm || matches!(\n        prev,\n        BidiClass::R | BidiClass::AL | BidiClass::EN | BidiClass::AN | BidiClass::ES\n    )")], expect_key=["outside-K"])
 case("c09-default-r", "break", ["C09"], [(BD, "        Err(_) => BidiClass::L,", "        Err(_) => BidiClass::R,")], "unlisted code points treated as R", expect_key=["lookup"])
 case("c09-first-an", "break", ["C09"], [(BD, "        if matches!(first, BidiClass::R | BidiClass::AL) {", "        if matches!(first, BidiClass::R | BidiClass::AL | BidiClass::AN) {")], "a label may start with an Arabic-Indic digit", expect_key=["outside-K"])
-case("c09-wrapper-modifies", "break", ["C09", "C04"], [(U, "        bidi::satisfy_bidi_rule(&s)\n            .then_some(s)\n            .ok_or(Error::Invalid)", "        bidi::satisfy_bidi_rule(&s)\n            .then_some(s)\n            .ok_or(Error::Unexpected(UnexpectedError::Undefined))")], "wrong error for a bidi violation", expect_key=["wrapper"])
+case("c09-wrapper-modifies", "break", ["C09"], [(U, "        bidi::satisfy_bidi_rule(&s)\n            .then_some(s)\n            .ok_or(Error::Invalid)", "        bidi::satisfy_bidi_rule(&s)\n            .then_some(s)\n            .ok_or(Error::Unexpected(UnexpectedError::Undefined))")], "wrong error for a bidi violation", expect_key=["wrapper"])
 case("c09-keep-if-chain", "keep", ["C09"], [(BD, """        if matches!(first, BidiClass::R | BidiClass::AL) {
             // this is a `RTL` label
             is_valid_rtl_label(it, first)
@@ -258,7 +258,7 @@ case("c12-revert-d2", "break", ["C12"], [(NK, "            let mut begin = res.i
 case("c12-emit-z", "break", ["C12"], [(NK, "                if !prev_space {\n                    res.push(common::SPACE);\n                }", "                if !prev_space {\n                    res.push(c);\n                }")], "interior non-ASCII space copied instead of mapped to U+0020", expect_key=["nickname-rule|word"])
 case("c12-reset-prev-on-s", "break", ["C12"], [(NK, "                if !prev_space {\n                    res.push(common::SPACE);\n                }\n\n                prev_space = true;", "                if !prev_space {\n                    res.push(common::SPACE);\n                }\n\n                prev_space = c != common::SPACE;")], "a run S S is not collapsed after the first problem", expect_key=["nickname-rule|word"])
 case("c12-scan-misses-double", "break", ["C12"], [(NK, "        if prev_space {\n            // More than one separator\n            return Some(index);\n        }\n", "")], "scan no longer reports two ASCII spaces in a row", expect_key=["nickname-rule|word"])
-case("c12-password-maps-all-zs", "break", ["C12", "C05"], [(PW, "        match s.find(common::is_non_ascii_space) {", "        match s.find(|c: char| c == '\\u{a0}' || c == '\\u{3000}') {")], "fast path looks only for two of the non-ASCII spaces: a string whose only one is U+2003 is returned unchanged", expect_key=["password-rule|trigger"])
+case("c12-password-maps-all-zs", "break", ["C12"], [(PW, "        match s.find(common::is_non_ascii_space) {", "        match s.find(|c: char| c == '\\u{a0}' || c == '\\u{3000}') {")], "fast path looks only for two of the non-ASCII spaces: a string whose only one is U+2003 is returned unchanged", expect_key=["password-rule|trigger"])
 case("c12-password-drops", "break", ["C12"], [(PW, "                    if common::is_non_ascii_space(c) {\n                        res.push(common::SPACE);\n                    } else {", "                    if common::is_non_ascii_space(c) {\n                        continue;\n                    } else {")], "non-ASCII spaces deleted instead of mapped", expect_key=["password-rule|map"])
 case("c12-ideographic-not-space", "break", ["C12", "C15"], [("precis-profiles/build.rs", 'UcdTableGen::new("Zs", "space_separator")', 'UcdTableGen::new("Zl", "space_separator")')], "table no longer Zs", expect_key=["L5"])
 case("c12-keep-while-let", "keep", ["C12", "C01"], [(NK, "            for c in s[pos..].chars() {\n                if !common::is_space_separator(c) {\n                    res.push(c);", "            let mut it = s[pos..].chars();\n            while let Some(c) = it.next() {\n                if !common::is_space_separator(c) {\n                    res.push(c);")], "for → while let")
@@ -286,7 +286,7 @@ case("c02-byte-positions", "break", ["C02"], [(SCF, "for (offset, c) in label.as
 case("c02-position-plus-one", "break", ["C02"], [(SCF, "                | DerivedPropertyValue::Unassigned => Err(Error::BadCodepoint(CodepointInfo::new(\n                    c as u32, offset, val,\n                ))),", "                | DerivedPropertyValue::Unassigned => Err(Error::BadCodepoint(CodepointInfo::new(\n                    c as u32,\n                    offset + 1,\n                    val,\n                ))),")], "one-based position", expect_key=["allows-table"])
 case("c02-specclassdis-valid", "break", ["C02"], [(SCF, "                DerivedPropertyValue::PValid | DerivedPropertyValue::SpecClassPval => Ok(()),\n                DerivedPropertyValue::SpecClassDis\n                | DerivedPropertyValue::Disallowed", "                DerivedPropertyValue::PValid\n                | DerivedPropertyValue::SpecClassPval\n                | DerivedPropertyValue::SpecClassDis => Ok(()),\n                DerivedPropertyValue::Disallowed")], expect_key=["allows-table|SpecClassDis"])
 case("c02-undefined-as-bad", "break", ["C02"], [(SCF, "                context::ContextRuleError::Undefined => {\n                    Err(Error::Unexpected(UnexpectedError::Undefined))\n                }", "                context::ContextRuleError::Undefined => {\n                    Err(Error::BadCodepoint(CodepointInfo::new(cp, offset, val)))\n                }")], expect_key=["Undefined"])
-case("c02-rule-gets-prev-index", "break", ["C02"], [(SCF, "        Some(rule) => match rule(label, offset) {", "        Some(rule) => match rule(label, offset.saturating_sub(1)) {")], "rule evaluated at the previous position", expect_key=["rule-invocation"])
+case("c02-rule-gets-prev-index", "break", ["C02"], [(SCF, "        Some(rule) => match rule(label, offset) {", "        Some(rule) => match rule(label, offset.saturating_sub(1)) {")], "rule evaluated at the previous position", expect_key=["allows-table"])
 case("c02-last-error-wins", "break", ["C02"], [(SCF, """                DerivedPropertyValue::ContextJ | DerivedPropertyValue::ContextO => {
                     allowed_by_context_rule(label.as_ref(), val, c as u32, offset)
                 }
